@@ -303,7 +303,7 @@ def run(ck):
     vlib.build_impl()
     hm = vlib.build_harness("hashmap_h", ["hashmap_h.c"], link_lib=False)
     zh = vlib.build_harness("zone_h", ["zone_h.c"])
-    vlib.build_modelrun()
+    vlib.build_modelrun("c18")
     res = vlib.coq_check_properties("C18")
     broken = ck.proof_result(res, CHECKER)
     forb = vlib.coq_forbidden_scan()
@@ -341,7 +341,7 @@ def run(ck):
     for prof, ops in scripts:
         ops = [o for o in ops if o.strip()]
         text = "\n".join(ops) + "\n"
-        ml = vlib.run_model("hashmap", text)
+        ml = vlib.run_model("c18", text, args=["hashmap"])
         il, outcome = vlib.run_impl(hm, text)
         dist["profiles"][prof.split(":")[0]] = dist["profiles"].get(prof.split(":")[0], 0) + 1
         for o in ops:
@@ -403,7 +403,7 @@ def run(ck):
                                       "replay_hint": "printf '%s\\n' <script lines> | .build/h/zone_h /tmp/x.cgns " + backend + " " + kind})
                         break
                     mscript, keep = zone_model_script(ops, il)
-                    ml = vlib.run_model("zones", "\n".join(mscript) + "\n")
+                    ml = vlib.run_model("c18", "\n".join(mscript) + "\n", args=["zones"])
                     ilk = [il[i] if not ops[i] == "reopen" else "r 0" for i in keep if i < len(il)]
                     if ml != ilk:
                         d = vlib.first_divergence(ml, ilk)
